@@ -291,9 +291,9 @@ class _UFunc:
             return self.dom._pairwise(self.name, a, b)
         return self.dom.b_max(a, b) if self.name == "max" else self.dom.b_min(a, b)
 
-    def reduce(self, a, axis=0, keepdims=False, **k):
+    def reduce(self, a, axis=0, keepdims=False, initial=None, **k):
         kw_strict(k, f"np.{self.name}imum.reduce")
-        return keepdims_fix(self.dom._red(self.name, a, axis), a, axis, keepdims)
+        return self.dom._red_initial(self.name, a, axis, keepdims, initial)
 
 
 class _ArithUFunc:
@@ -838,13 +838,25 @@ class SymDomain(BaseDomain):
             return out
         return abs(v)
 
-    def np_max(self, a, axis=None, keepdims=False, **k):
+    def np_max(self, a, axis=None, keepdims=False, initial=None, **k):
         kw_strict(k, "max")
-        return keepdims_fix(self._red("max", a, axis), a, axis, keepdims)
+        return self._red_initial("max", a, axis, keepdims, initial)
 
-    def np_min(self, a, axis=None, keepdims=False, **k):
+    def np_min(self, a, axis=None, keepdims=False, initial=None, **k):
         kw_strict(k, "min")
-        return keepdims_fix(self._red("min", a, axis), a, axis, keepdims)
+        return self._red_initial("min", a, axis, keepdims, initial)
+
+    def _red_initial(self, name, a, axis, keepdims, initial):
+        """max / min reduction; `initial` takes part in the reduction (and makes the empty reduction legal)"""
+        aw = wrap(self.np_array(a) if isinstance(a, (list, tuple)) else a)
+        if initial is not None and aw.size == 0 and axis in (None, 0) and aw.ndim <= 1:
+            return initial
+        res = keepdims_fix(self._red(name, a, axis), a, axis, keepdims)
+        if initial is None:
+            return res
+        if isinstance(res, SymArr):
+            return self._pairwise(name, res, initial)
+        return self.sym_minmax(name, [res, initial])
 
     def _red(self, name, a, axis):
         if isinstance(a, (list, tuple)):
